@@ -667,8 +667,26 @@ func inProcessCase(run *hx.Run, idx int, as []ann, tag string) {
 		"gha=" + hx.Enc(res.out.gha),
 		"json=" + encRecs(recs),
 		"junit=" + encSuites(suites),
+		"djunit=" + decodeJUnit(suites),
 	}, "\t")
 	run.Case(input, implOut, len(res.sorted) > 1 || len(as) != len(res.sorted))
+	// the decoders on the REAL printed text: the harness's own (what a line-oriented consumer
+	// does) against the Lean model's `parse_f`
+	// (every set in the quick tier, every 8th in the thorough one: the lines carry the whole text again)
+	if idx%run.N(1, 8) == 0 {
+		run.Case("dec\ttext\t"+hx.Enc(res.out.text), decodeLines(res.out.text, decodeTextLine), len(res.sorted) > 1)
+		run.Case("dec\tmsvs\t"+hx.Enc(res.out.msvs), decodeLines(res.out.msvs, decodeMSVSLine), len(res.sorted) > 1)
+		run.Case("dec\tgha\t"+hx.Enc(res.out.gha), decodeLines(res.out.gha, decodeGHALine), len(res.sorted) > 1)
+	}
+	if d := decodeLines(res.out.gha, decodeGHALine); strings.Contains(d, "!") {
+		run.Fail(hx.OracleFailure{Class: "gha-not-one-line", What: fmt.Sprintf("a github-actions line does not decode: %q", res.out.gha), Input: as, Replay: replay})
+	}
+	if strings.Contains(decodeLines(res.out.text, decodeTextLine), "!") {
+		run.Count(tag + ":text-line-undecodable")
+	}
+	if strings.Contains(decodeLines(res.out.msvs, decodeMSVSLine), "!") {
+		run.Count(tag + ":msvs-line-undecodable")
+	}
 	run.Count(fmt.Sprintf("%s:in=%d", tag, min(len(as), 9)))
 	run.Count(fmt.Sprintf("%s:dropped=%d", tag, min(len(as)-len(res.sorted), 5)))
 	if !keyDet {
@@ -729,6 +747,11 @@ func main() {
 		do(func() { inProcessCase(run, idx, as, "set") })
 	}
 	run.Set("part1_seconds", time.Since(tStart).Seconds())
+	// part (iii): error values through the extracted classification code
+	t3 := time.Now()
+	errValueCases(run, rnd.Fork(3_000_000), &idx, do)
+	appErrorCreators(run)
+	run.Set("part3_seconds", time.Since(t3).Seconds())
 	// part (ii)
 	t0 := time.Now()
 	bufBin, err := buildBuf(run)
@@ -743,8 +766,11 @@ func main() {
 	}
 	defer os.RemoveAll(scratch)
 	procRuns := 0
-	do(func() { procRuns += binaryCase(run, idx, collisionWorkspace(), bufBin, scratch) })
-	nWs := run.N(96, 800)
+	for _, w := range fixedWorkspaces() {
+		w := w
+		do(func() { procRuns += binaryCase(run, idx, w, bufBin, scratch) })
+	}
+	nWs := run.N(100, 800)
 	for i := 0; i < nWs; i++ {
 		r := rnd.Fork(uint64(1_000_000 + i))
 		w := genWorkspace(r, i)
